@@ -624,7 +624,7 @@ def all_instances(tier, names, dtypes=None, batches=None, sizes=None):
 # the unit function
 
 BUDGET = {  # number of index tuples per operator instance and family
-    "quick": dict(singles=48, pairs=20, rand=8, ellipsis=7, rank2=8, negval=2, second_step=2),
+    "quick": dict(singles=40, pairs=16, rand=6, ellipsis=6, rank2=7, negval=2, second_step=2),
     "thorough": dict(singles=150, pairs=70, rand=24, ellipsis=14, rank2=24, negval=4, second_step=6),
 }
 
@@ -666,7 +666,11 @@ def rtc_getitem(case_names, tier):
         return rec.check(group, label, ok, "" if ok else f"{kind} result values differ from D[index]: max abs err "
                          f"{float((d.double() - exp.double()).abs().max()):.3e}")
 
-    for label, c, op, dense in all_instances(tier, case_names):
+    if tier == "quick":  # float64 on the full batch x size grid, float32 on half of the sizes
+        grids = [dict(dtypes=[torch.float64]), dict(dtypes=[torch.float32], sizes=[1, 4])]
+    else:
+        grids = [dict()]
+    for label, c, op, dense in (inst for gr in grids for inst in all_instances(tier, case_names, **gr)):
         if op is None:
             rec.check(f"construct/{c.name}", label, False, f"constructor raised {dense!r}")
             continue
@@ -728,7 +732,7 @@ def rtc_getitem(case_names, tier):
                     continue
                 n_indices += 1
                 fam = "negative_valued_tensor" if which == "negval" else family_of(torch, ix, rank)
-                group = f"getitem[{fam}]/{c.name}"
+                group = f"getitem:{fam}/{c.name}"
                 results = []
                 for dbg in (True, False):
                     lab = f"{label}|dbg={int(dbg)}|ix={key}"
@@ -737,7 +741,7 @@ def rtc_getitem(case_names, tier):
                             res = op[ix]
                         except Exception as e:  # noqa
                             if permitted_unsupported(torch, O, e, op, ix, CAT_DIM.get(c.name)):
-                                rec.check(f"getitem[declared_unsupported]/{c.name}", lab, True, nontrivial=False)
+                                rec.check(f"getitem:declared_unsupported/{c.name}", lab, True, nontrivial=False)
                             else:
                                 import traceback
                                 tb = [ln.strip() for ln in traceback.format_exc().strip().splitlines() if ln.strip().startswith("File")]
@@ -796,10 +800,10 @@ RTC_META = {
     "assumptions": ["torch's own indexing of the dense oracle defines the expected result (indices torch rejects are skipped, see C19)",
                     "zoo oracle D(op) (contracts/zoo.py + extra nested/broadcast cases in rtc_C03.extra_cases)",
                     "values compared with the zoo tolerance (float64 4e-9, float32 8e-4 relative to max|D|): indexing may recompute entries"],
-    "families": "52 zoo cases + 31 extra nested / broadcasting-batch cases x dtypes {f32,f64} x batch shapes {(),(2,),(1,),(2,3)} (+(1,2),(3,1,2) thorough) "
-                "x sizes {1,2,4,6} (+3,9 thorough); per instance: every index atom (8 ints, <=31 slices, 0-d/1-d tensors, lists) in every "
+    "families": "52 zoo cases + 31 extra nested / broadcasting-batch cases x batch shapes {(),(2,),(1,),(2,3)} (+(1,2),(3,1,2) thorough) "
+                "x sizes {1,2,4,6} in float64 and {1,4} in float32 (thorough: {1,2,3,4,6,9} in both dtypes); per instance: every index atom (8 ints, <=31 slices, 0-d/1-d tensors, lists) in every "
                 "position (singles, also behind/before an Ellipsis and as bare index), a stratified rotating 1/k sample of all atom pairs in all "
-                "position pairs (40 quick / 160 thorough per instance), seeded random full-rank tuples (16 / 60), an Ellipsis in every position of "
+                "position pairs (16 quick / 70 thorough per instance), seeded random full-rank tuples (6 / 24), an Ellipsis in every position of "
                 "tuples of every length, rank-2 broadcasting tensor combinations over every admissible position set, tensors with negative "
                 "entries (own group), a second indexing step / diagonal on operator results; each with settings.debug on and off",
 }
